@@ -47,7 +47,11 @@ class Prop:
                  "delays": [rng.choice([0, 0, 5, 10, 30]) for _ in range(4)], "td": rng.random() < 0.3}
         elif form.startswith("timer"):
             a = {"d": rng.choice([0, 5, 10, 50, 120])}
-        return {"clock": rng.choice(["test", "historical", "vts"]), "form": form, "a": a, "sources": [], "sub_t": 205, "horizon": 1500}
+        sc = {"clock": rng.choice(["test", "historical", "vts"]), "form": form, "a": a, "sources": [], "sub_t": 205, "horizon": 1500}
+        off = rng.choice([None, None, None, 37, 123, 411])
+        if off and form != "from_iterable_gen":  # (a generator object can be iterated once: nothing is stated about a second subscription)
+            sc["sub2_t"] = 205 + off  # the same factory-made observable subscribed a second time
+        return sc
 
     def build(self, w, sc):
         f, a = sc["form"], sc["a"]
@@ -88,8 +92,9 @@ class Prop:
             return rx.timer(timedelta(seconds=a["d"]))
         return rx.timer(vt.UTC0 + timedelta(seconds=sc["sub_t"] + a["d"]))
 
-    def expected(self, sc):
-        f, a, t0 = sc["form"], sc["a"], float(sc["sub_t"])
+    def expected(self, sc, t0=None):
+        f, a = sc["form"], sc["a"]
+        t0 = float(sc["sub_t"] if t0 is None else t0)
         if f == "range":
             r = range(a["stop"]) if a["nargs"] == 1 else (range(a["start"], a["stop"]) if a["nargs"] == 2 else range(a["start"], a["stop"], a["step"]))
             return [(t0, "N", v) for v in r] + [(t0, "C", None)]
@@ -115,25 +120,34 @@ class Prop:
                 s = it(s)
                 guard += 1
             return out + [(t, "C", None)]
+        if f == "timer_abs":
+            t = max(t0, float(sc["sub_t"]) + a["d"])  # an absolute due time: the same instant for every subscription (at once if it has passed)
+            return [(t, "N", 0), (t, "C", None)]
         return [(t0 + a["d"], "N", 0), (t0 + a["d"], "C", None)]
 
     def execute(self, sc):
         out = Outcome()
         desc = "form=%s args=%s clock=%s" % (sc["form"], sc["a"], sc["clock"])
         out.probes["form:" + sc["form"]] += 1
-        w, rec = multi.run_real(sc, self.build)
-        got = models.norm(rec.events_kv())
-        want = models.norm(self.expected(sc))
+        w, recs = multi.run_real_multi(sc, self.build)
+        rec = recs[0]
         out.sim_time = sc["horizon"]
-        out.nontrivial = len(got) >= 2
-        out.digest = (sc["form"], repr(sc["a"]), tuple(got))
-        g = vt.grammar_violation(rec)
-        if g:
-            out.bad("grammar", "%s: %s" % (desc, g))
         if w.escaped:
             out.bad("escaped", "%s: %r" % (desc, w.escaped[0][2:]))
-        if got != want:
-            out.bad("factory-mismatch", "%s: got %s, expected %s" % (desc, got[:10], want[:10]))
+        for i, (t0, r) in enumerate(zip(multi.sub_times(sc), recs)):
+            tag = desc if i == 0 else "%s [second subscription of the same observable at t=%s]" % (desc, t0)
+            got = models.norm(r.events_kv())
+            want = models.norm(self.expected(sc, t0))
+            if i == 0:
+                out.nontrivial = len(got) >= 2
+                out.digest = (sc["form"], repr(sc["a"]), tuple(got), sc.get("sub2_t"))
+            else:
+                out.probes["second_subscription_checked"] += 1
+            g = vt.grammar_violation(r)
+            if g:
+                out.bad("grammar", "%s: %s" % (tag, g))
+            if got != want:
+                out.bad("factory-mismatch", "%s: got %s, expected %s" % (tag, got[:10], want[:10]))
         out.info = {"form": sc["form"], "args": sc["a"], "got": rec.kinds()}
         return out
 
